@@ -484,6 +484,74 @@ func runC12(w *World, r *Report) {
 				}
 			}
 			r.check(ok, "entry-verified", "verifyGossipers/insert", lineOf(w, mu), "only entries whose signature verifies for (their own address, this item's hash) enter the set", why)
+			// completeness: each list element is verified unless it is malformed, and a verified one is inserted
+			var okv ssa.Value
+			var hdr *ssa.BasicBlock
+			for _, blk := range fn.Blocks {
+				if blk.Comment == "rangeindex.loop" {
+					hdr = blk
+				}
+			}
+			skipped, dropped := 0, 0
+			var verifyCalls []ssa.Instruction
+			for _, c := range callsTo2(fn, ").Verify") {
+				verifyCalls = append(verifyCalls, c.(ssa.Instruction))
+			}
+			if hdr != nil && len(hdr.Succs) == 2 {
+				_ = okv
+				// malformed-element skips: edges carrying a nil/len fact about the ranged member that lead back to the header
+				isMalformedEdge := func(e Edge) bool {
+					for _, ft := range edgeFacts(e) {
+						if ft.kind == fIsNil && strings.HasPrefix(pathOf(ft.x), member) {
+							return true
+						}
+					}
+					iff, ok := e.From.Instrs[len(e.From.Instrs)-1].(*ssa.If)
+					if ok {
+						for _, lf := range lenFactsOf(iff.Cond, e.Idx != 0) { // the edge on which the length test FAILED
+							if strings.HasPrefix(lf.path, member) {
+								return true
+							}
+						}
+					}
+					return false
+				}
+				var cut []Edge
+				for _, blk := range fn.Blocks {
+					for i := range blk.Succs {
+						if isMalformedEdge(Edge{blk, i}) {
+							cut = append(cut, Edge{blk, i})
+						}
+					}
+				}
+				walkFrom(nil, hdr.Succs[0], edgeSet(cut), func(x ssa.Instruction) bool {
+					for _, vc := range verifyCalls {
+						if x == vc {
+							return true
+						}
+					}
+					if x.Block() == hdr {
+						skipped++
+						return true
+					}
+					return false
+				})
+				for _, c := range callsTo2(fn, ").Verify") {
+					for _, se := range passErrNil(c) {
+						walkFrom(nil, se.To(), nil, func(x ssa.Instruction) bool {
+							if x == ssa.Instruction(mu) {
+								return true
+							}
+							if x.Block() == hdr {
+								dropped++
+								return true
+							}
+							return false
+						})
+					}
+				}
+			}
+			r.check(hdr != nil && skipped == 0 && dropped == 0, "entry-verified", "verifyGossipers/every-entry-considered", lineOf(w, mu), "each listed gossiper is verified unless it is malformed (nil / wrong digest length), and every verified one enters the set", fmt.Sprintf("%d ways to skip verification for a well-formed entry, %d ways to drop a verified entry", skipped, dropped))
 			// the returned map is the one filled
 			retOK := true
 			for _, ret := range returnsOf(fn) {
